@@ -134,7 +134,7 @@ func Go(f func()) {
 		go childMain(t, f)
 	case t == -2:
 		// the run is being torn down: the goroutine is not started at all
-		panic(Abort{"run aborted"})
+		raise("run aborted")
 	default:
 		liveReal.Add(1)
 		go func() {
